@@ -39,10 +39,14 @@ func readStreamedBlock(r io.Reader, scale uint8) (block *labels.Block, compresse
 		return
 	}
 	bcoord := dvid.ChunkPoint3d{bx, by, bz}.ToIZYXString()
-	compressed = make([]byte, numBytes)
-	n, err = io.ReadFull(r, compressed)
-	if n != numBytes || err != nil {
-		err = fmt.Errorf("error reading %d bytes for block %s: %d actually read (%v)", numBytes, bcoord, n, err)
+	// read through a limited reader so the buffer grows with the bytes actually sent,
+	// not with the length the client declared
+	compressed, err = ioutil.ReadAll(io.LimitReader(r, int64(numBytes)))
+	if err == nil && len(compressed) != numBytes {
+		err = io.ErrUnexpectedEOF
+	}
+	if err != nil {
+		err = fmt.Errorf("error reading %d bytes for block %s: %d actually read (%v)", numBytes, bcoord, len(compressed), err)
 		return
 	}
 
